@@ -13,6 +13,9 @@ Definition fl (m e : Z) : val := VFloat (norm64 m e).
 
 Definition multibyte : string := String (ascii_of_nat 195) (String (ascii_of_nat 169) "z").   (* "e-acute z" in UTF-8 *)
 
+(* 40 characters: longer than any inline or small-buffer threshold one would pick for short strings *)
+Definition long_text : string := "the quick brown fox jumps over the lazy ".
+
 Definition scalar_variants (k : skind) : list val :=
   match k with
   | SBool => [VBool false; VBool true]
@@ -20,7 +23,7 @@ Definition scalar_variants (k : skind) : list val :=
   | SByte => [VInt 0; VInt 65; VInt 255]
   | SF32 => [fl 0 0; fl 3 (-1); fl (-5) (-2); fl 32769 (-1)]                (* 16384.5: a magnitude at which a relative tolerance would differ from the absolute one *)
   | SF64 => [fl 0 0; fl 3 (-1); fl (-1001) (-3); fl 1 60; fl 32769 (-1)]
-  | SString => [VStr ""; VStr "ab"; VStr multibyte]
+  | SString => [VStr ""; VStr "ab"; VStr multibyte; VStr long_text]
   end.
 
 (* two distinct keys per key kind whose text form parses back to them *)
@@ -30,7 +33,7 @@ Definition key_variants (k : skind) : list val :=
   | SByte => [VInt 1; VInt 3]
   | SF32 => [fl 3 (-1); fl 2 0]
   | SF64 => [fl 3 (-1); fl 16777217 0]      (* 2^24+1: exact in float64, not representable in float32 *)
-  | SString => [VStr "a"; VStr "b"]
+  | SString => [VStr "a"; VStr ""]          (* the empty string is a key like any other *)
   | SBool => [VBool true; VBool false]
   end.
 
